@@ -1353,7 +1353,7 @@ pub fn run_index(id: &str, tier: &str, seed: u64, idx: u64, stats: &mut Stats, k
     // scale runs: a pre-state far beyond the usual sizes (a tree of several dozen entries with
     // nested directories of different modes, files of equal size above the usual buffer sizes)
     // and the copy / move calls that have to cope with it
-    if idx % 128 == 69 && matches!(id, "C02" | "C09" | "C06") && !pre.nodes.contains_key("/S") {
+    if idx % 128 == 69 && matches!(id, "C02" | "C09" | "C06" | "C07") && !pre.nodes.contains_key("/S") {
         stats.bump("scale_runs");
         let modes = [0o40755u32, 0o40700, 0o40750, 0o41777, 0o40711];
         pre.nodes.insert("/S".into(), Node::dir(*rng.pick(&modes)));
@@ -1395,6 +1395,20 @@ pub fn run_index(id: &str, tier: &str, seed: u64, idx: u64, stats: &mut Stats, k
         gen.queue.push_back(forced);
         gen.queue.push_back(Op::ReadAll { p: "/S/big2".into() });
         len += 2;
+        // one write call larger than any buffer, through a write and through an append handle
+        let mut blk = format!("<blk{}>", idx).into_bytes();
+        blk.resize(*rng.pick(&[65537usize, 100000, 131073]), b'w');
+        for op in [
+            Op::OpenWrite { h: 0, p: "/hw".into() },
+            Op::HWrite { h: 0, d: Bytes(blk.clone()) },
+            Op::HDrop { h: 0 },
+            Op::OpenAppend { h: 1, p: "/hw".into() },
+            Op::HWrite { h: 1, d: Bytes(blk) },
+            Op::HDrop { h: 1 },
+        ] {
+            gen.queue.push_back(op);
+            len += 1;
+        }
     }
     let out = SANDBOX.with(|sb| {
         let o = run_diff(id, sb, &knobs, &venv, &pre, Src::Gen { gen: &mut gen, rng: &mut rng, len }, stats, known);
